@@ -58,11 +58,11 @@ func (Prop) Describe() core.Description {
 // non-zero when y is): a lock-free implementation (crypto/rand, say) is legitimate and must
 // not trip the dead-probe guard.
 func quickProbes() []string {
-	return []string{"lock_contended if lock_held_across_yield", "waiters_ge_2 if lock_held_across_yield", "ids_ge_128_uniform", "long_lived_run", "crowd_run"}
+	return []string{"lock_contended if lock_held_across_yield", "waiters_ge_2 if lock_blocked", "ids_ge_128_uniform", "long_lived_run", "crowd_run"}
 }
 
 func thoroughProbes() []string {
-	return []string{"holder_starved if lock_held_across_yield", "all_other_tasks_blocked if lock_held_across_yield", "preempt_in_rmw_fault if lock_held_across_yield"}
+	return []string{"holder_starved if lock_blocked", "all_other_tasks_blocked if lock_blocked", "preempt_in_rmw_fault if lock_held_across_yield"}
 }
 
 // EnumSize implements core.Property: nothing is enumerated.
@@ -191,6 +191,22 @@ func (Prop) Run(t *core.Tape, o core.RunOpts) *core.Result {
 	// on no heap address being reused within a run
 	gcOff := debug.SetGCPercent(-1)
 	defer debug.SetGCPercent(gcOff)
+	// a callback handed to the library may be kept and run later, inside any call (a seed hook
+	// run by the first RandomID): the panic injected into it surfaces there, in the caller that
+	// triggered it, exactly as the harness's request handler would see it. That call returns no ID.
+	guarded := func(f func() []uu.ID) (ids []uu.ID) {
+		defer func() {
+			if r := recover(); r != nil {
+				if r != errCallback {
+					panic(r)
+				}
+				callbackPanicked = true
+				res.Faults.Inc("callback_panic_surfaced_in_a_later_call")
+				ids = nil
+			}
+		}()
+		return f()
+	}
 	s.Run(n, arrive, func(task int) {
 		for c := 0; c < calls && !s.Aborted(); c++ {
 			s.Yield(sched.KPreCall, 0)
@@ -245,10 +261,10 @@ func (Prop) Run(t *core.Tape, o core.RunOpts) *core.Result {
 					res.Probes.Inc("extra_id_source_big_batch")
 				}
 				s.MaxSteps += int64(want) * 200 // a pipeline of goroutines and channels spends tens of steps per ID
-				ids = ExtraSources[k](want)
+				ids = guarded(func() []uu.ID { return ExtraSources[k](want) })
 				res.Probes.Inc("extra_id_source_called")
 			} else {
-				ids = []uu.ID{uu.RandomID()}
+				ids = guarded(func() []uu.ID { return []uu.ID{uu.RandomID()} })
 			}
 			if s.Aborted() {
 				return
